@@ -37,14 +37,15 @@ def o_split_bars(inp):
     from scoda.sequences.sequence import Sequence
     tracks = [[tuple(m) for m in t] for t in inp["tracks"]]
     requant = inp["requant"]
-    seqs = [P.seq_of_rel(t) for t in tracks]
+    states = inp.get("states") or ["rel"] * len(tracks)
+    seqs = [P.seq_in_state(t, st) for t, st in zip(tracks, states)]
     try:
         tb = Sequence.sequences_split_bars(seqs, meta_track_index=0, quantise_note_lengths=requant)
     except Exception as e:
         return [("raises", f"{type(e).__name__}: {e}")]
     fails = []
-    for t, s in zip(tracks, seqs):
-        if [from_real(m) for m in s.rel._messages] != t:
+    for t, s, st in zip(tracks, seqs, states):
+        if (st == "rel" and [from_real(m) for m in s.rel._messages] != t) or rel_timed(P.content_of(s)) != rel_timed(t):
             fails.append(("inputs", "an input sequence changed"))
     counts = {len(b) for b in tb}
     if len(counts) != 1:
@@ -115,11 +116,20 @@ def generate(ctx):
     rng = ctx.rng
     for i in range(ctx.n(120, 3000)):
         piece = G.gen_piece(rng, key_changes=True, unequal=rng.random() < 0.5, tail_ok=True, values=[6, 12, 24, 36, 48, 96, 5])
+        if rng.random() < 0.35:
+            # multi-channel tracks: a rest that crosses a bar line may carry another channel than the note held across it
+            piece["tracks"] = [piece["tracks"][0]] + [G.spread_channels(rng, t) for t in piece["tracks"][1:]] \
+                if rng.random() < 0.5 else [G.spread_channels(rng, t) for t in piece["tracks"]]
+            ctx.count("multi-channel-tracks")
         requant = rng.random() < 0.5
         nt = len(piece["sigs"]) > 1 or len(set(rel_timed(t)[1] for t in piece["tracks"])) > 1
         ctx.case((piece["tracks"], requant), nt)
         ctx.count("requant" if requant else "exact")
         ctx.count("bars:%d" % len(piece["bars"]))
         ctx.check("split_bars", {"tracks": piece["tracks"], "requant": requant})
+        if i % 4 == 0:
+            sts = [rng.choice(P.SEQ_STATES) for _ in piece["tracks"]]
+            ctx.count("wrapper-states")
+            ctx.check("split_bars", {"tracks": piece["tracks"], "requant": requant, "states": sts})
         ctx.corr("splitBars", P.op_splitBars(0, requant, piece["tracks"]))
         ctx.sample({"tracks": [t[:6] for t in piece["tracks"]], "requant": requant})
